@@ -11,6 +11,7 @@ and is not re-decided here.
 from __future__ import annotations
 
 import ast
+import re
 from typing import Dict, List, Optional, Set, Tuple
 
 from ..core import AnalysisError, FuncInfo, Repo, dotted
@@ -83,10 +84,28 @@ def check(repo: Repo, R) -> None:
 
     # ---- 3 signals ⊇ ports
     rule = "C06.3-signals-and-ports"
-    sig_loop = [st for st in au.walk_no_nested(fm.node) if isinstance(st, ast.For) and shared.prov_text(fm.node, st.iter) == "list(module.signals.values()) + list(module.ports.values())"]
-    ok = len(sig_loop) == 1 and isinstance(sig_loop[0].target, ast.Name) and bool(shared.calls_matching(sig_loop[0], f"pmod.signals.append(vckt.Signal(name={sig_loop[0].target.id}.name, width={sig_loop[0].target.id}.width))"))
+    # every `pmod.signals.append(Signal(name=x.name, width=x.width))` runs in a loop over the module's own views; the
+    # sources, in program order, are: the internal signals, then the ports (one loop over the concatenation, or two loops)
+    srcs = []
+    shape = True
+    for lp in [st for st in au.walk_no_nested(fm.node) if isinstance(st, ast.For)]:
+        if not isinstance(lp.target, ast.Name):
+            continue
+        apps = shared.calls_matching(lp, "pmod.signals.append($V)")
+        if not apps:
+            continue
+        x = lp.target.id
+        if not shared.calls_matching(lp, f"pmod.signals.append(vckt.Signal(name={x}.name, width={x}.width))") or shared.path_conditions(lp, apps[0][0]):
+            shape = False
+        it = shared.prov_text(fm.node, lp.iter)
+        parts = [p_.strip() for p_ in it.split(" + ")]
+        for p_ in parts:
+            m_ = re.fullmatch(r"(?:list\()?module\.(\w+)\.values\(\)\)?", p_)
+            srcs.append(m_.group(1) if m_ else p_)
+    ok = shape and srcs == ["signals", "ports"]
     R.check(ok, rule, key_of(fm, "signals"), fm.site, f"the signal list is built from the module's internal signals and its ports, each with its own name and width: {ok}", why="a port has no declared signal, or a signal is declared with another width")
-    port_loop = [st for st in au.walk_no_nested(fm.node) if isinstance(st, ast.For) and shared.prov_text(fm.node, st.iter) == "module.ports.values()"]
+    port_loop = [st for st in au.walk_no_nested(fm.node) if isinstance(st, ast.For) and shared.calls_matching(st, "pmod.ports.append($V)")]
+    port_loop = [st for st in port_loop if shared.prov_text(fm.node, st.iter) in ("module.ports.values()", "list(module.ports.values())")] if len(port_loop) == 1 else []
     ok = len(port_loop) == 1 and isinstance(port_loop[0].target, ast.Name) and bool(shared.calls_matching(port_loop[0], f"pmod.ports.append(export_port({port_loop[0].target.id}))"))
     fp = repo.func(F_EXPORT, "export_port")
     ok2 = (bool(pat.find("$P.signal = port.name", fp.node)) and bool(pat.find("$P.direction = export_port_dir(port)", fp.node))) or bool(shared.calls_matching(fp.node, "vckt.Port(signal=port.name, direction=export_port_dir(port))"))
